@@ -78,7 +78,10 @@ def strategy(tier):
                                                               **({"pre": pr} if pr else {}), **({"think_ms": th} if th and k == "async" else {}),
                                                               **({"active": True} if act and k == "async" else {})),
                      st.integers(0, n - 1), wire, st.lists(step, min_size=1, max_size=10), st.sampled_from(["async", "async", "blocking"]), overlap, pre,
-                     think, st.booleans())
+                     think, st.booleans()).flatmap(lambda c_: st.sampled_from([False, False, False, True]).map(
+                         lambda lv: dict(c_, live=True) if lv and c_["stack"] == "async" and "wc_overlap" not in c_ and not c_.get("think_ms") else c_)).flatmap(
+                         lambda c_: st.one_of(st.none(), st.none(), st.tuples(st.integers(0, 9), st.integers(0, 3)).map(list)).map(
+                             lambda tw: dict(c_, twin=tw) if tw and c_["stack"] == "async" else c_))
 
 
 # ------------------------------------------------------------------ the model spa
@@ -418,7 +421,8 @@ def _run_async(res, case, snap, pair, history, info):
     async def main(W):
         from geckolib import GeckoAsyncFacade
 
-        spa, tm, ev = await clients.connect_async_spa(W, peer)
+        live = bool(case.get("live"))
+        spa, tm, ev = await clients.connect_async_spa(W, peer, keep_loops=live)
         try:
             clients.keep_ping_fresh(spa, W)
             fac = GeckoAsyncFacade(spa, tm)
@@ -444,7 +448,7 @@ def _run_async(res, case, snap, pair, history, info):
                              f"{peer.wc_mode}, the facade reads {fac.water_care.mode} (notifications {[(a[1], a[2]) for a in wc_calls]})")
                 info["overlap"] = True
             for t in list(tm._tasks):
-                if t.get_name() == "FACADE:Facade update":
+                if t.get_name() == "FACADE:Facade update" and not live:
                     t.cancel()   # from here on only the tested commands talk
             await W.sleep(0.3)
             for _ in range(int(case.get("pre", 0))):
@@ -461,17 +465,23 @@ def _run_async(res, case, snap, pair, history, info):
             async def settle():
                 for _ in range(200):
                     await W.sleep(0.25)
-                    live = [t for t in tm._tasks if not t.done() and t.get_name().startswith(("SPA:Set value", "SPA:Button press"))]
-                    if not live and W.in_flight == 0 and spa._protocol.queue.qsize() == 0:
+                    busy_ = [t for t in tm._tasks if not t.done() and t.get_name().startswith(("SPA:Set value", "SPA:Button press"))]
+                    if not busy_ and W.in_flight == 0 and spa._protocol.queue.qsize() == 0 and not (live and spa._protocol.Lock.locked()):
                         return
                 raise SetupFailed("world did not settle after a command")
 
-            for poke, cmd in history:
-                clients.keep_ping_fresh(spa, W)
+            for n_cmd, (poke, cmd) in enumerate(history):
+                if live:
+                    # the connection's own ping / refresh / facade-update loops run, nothing is helped along: the spa answers every
+                    # ping, so every command - also the one right after the timing table changed - must still go out
+                    await W.sleep([1.0, 3.0, 8.0][(n_cmd + len(history)) % 3])
+                else:
+                    clients.keep_ping_fresh(spa, W)
                 if poke is not None:
                     peer.poke(str(poke[0]), int(poke[1]))
                     await settle()
-                    clients.keep_ping_fresh(spa, W)
+                    if not live:
+                        clients.keep_ping_fresh(spa, W)
                 if spa.struct.status_block != peer.block:
                     raise SetupFailed("client block differs from the model before a command")
                 before = peer.block
@@ -501,6 +511,28 @@ def _run_async(res, case, snap, pair, history, info):
                     res.fail("C13|client-block-differs", f"after {plan['what']} and the echo the client block differs from the spa's at {bad}")
                 else:
                     plan["after"]()
+            twin = case.get("twin")
+            if twin and not res.violations and "SetpointG" in pair.items and "TempUnits" in pair.items:
+                # two commands through the non-awaitable API, one right behind the other (the second is issued while the first still
+                # waits for its acknowledgement): both must reach the spa, in order, and the second one's value must stand
+                if not live:
+                    clients.keep_ping_fresh(spa, W)
+                wh = fac.water_heater
+                unit = pair.unit(peer.block)
+                base_t = (20 if unit == "C" else 70) + int(twin[0]) % 10
+                t1, t2 = base_t + 0.5, base_t + 1.0 + (int(twin[1]) % 4) * 0.5
+                n0 = len(peer.commands)
+                wh.set_target_temperature(t1)
+                wh.set_target_temperature(t2)
+                await settle()
+                got = [g for g in peer.commands[n0:] if g["verb"] == "SPACK"]
+                pos_ = pair.items["SetpointG"].pos
+                if len(got) != 2 or any(g.get("pos") != pos_ for g in got):
+                    res.fail("C13|command-count|back-to-back", f"set_target_temperature({t1}) immediately followed by set_target_temperature({t2}) put "
+                             f"{len(got)} set-value commands on the wire: {[g['raw'] for g in got]}")
+                elif abs(wh.target_temperature - t2) > (1 / 18 if unit == "C" else 0.1) + 1e-9:
+                    res.fail("C13|readback|back-to-back", f"after set_target_temperature({t1}); set_target_temperature({t2}) the facade reads {wh.target_temperature}")
+                info["twin"] = True
         finally:
             await spa.disconnect()
             await clients.shutdown(tm)
@@ -610,4 +642,8 @@ def run_case(case) -> Result:
         res.label("watercare-command-during-poll")
     if info.get("slow_or_active"):
         res.label("slow-acknowledgement-or-active-table")
+    if case.get("live"):
+        res.label("live-connection-loops-running")
+    if info.get("twin"):
+        res.label("two-commands-back-to-back")
     return res
